@@ -11,7 +11,7 @@ S = 10000
 
 
 def exponent(err):
-    return int(max(-17, min(3, math.ceil(math.log10(max(err, 1e-17))))))
+    return 3 if not math.isfinite(err) else int(max(-17, min(3, math.ceil(math.log10(max(err, 1e-17))))))
 
 
 def rule_event(q, dim, order, cell, tid):
